@@ -35,7 +35,10 @@ try:
             subprocess.run(['git', '-C', scratch, 'reset', '-q'])
     else:
         p = subprocess.run(['git', '-C', '/repo', 'diff', a.revert, a.revert + '^'], check=True, stdout=subprocess.PIPE)
-        subprocess.run(['git', '-C', scratch, 'apply'], input=p.stdout, check=True)
+        r = subprocess.run(['git', '-C', scratch, 'apply'], input=p.stdout)
+        if r.returncode:
+            # later fixes touched neighbouring lines: fall back to a three-way merge of the reverse diff
+            subprocess.run(['git', '-C', scratch, 'apply', '-3'], input=p.stdout, check=True)
     tests_ok = True
     if not a.skip_tests:
         r = subprocess.run([os.path.join(VERIF, 'tools/baseline.py'), scratch], stdout=subprocess.PIPE, text=True)
